@@ -804,7 +804,8 @@ def rule_pair_distance_covers(repo, rep):
   """every pair handed to pair_distance gets the distance of that pair"""
   R = 'R-INTERP:pair-distance-covers-all-pairs'
   rep.rule(R, 'MahalanobisMixin.pair_distance interpreted for n_pairs in '
-           '{1, 5, 65536, 65537, 70006, 131072, 200001}: the returned '
+           '{1, 5, 17, 129, 1000, 4097, 10007, 65536, 65537, 70006, 131072, '
+           '200001}: the returned '
            'vector has one entry per pair and entry i is computed from the '
            'two points of pair i (whether the pairs are scored at once or '
            'in batches, every index interval is written with the distances '
@@ -988,7 +989,8 @@ def rule_pair_distance_covers(repo, rep):
       return NotImplemented
   bad = unk = None
   ps = f.params()
-  for n in (1, 5, 65536, 65537, 70006, 131072, 200001):
+  for n in (1, 5, 17, 129, 1000, 4097, 10007, 65536, 65537, 70006, 131072,
+            200001):
     w = W(n)
     it = Interp(repo, f, w)
     it.fuel = 200000
